@@ -135,7 +135,7 @@ theorem sliceBounds_round (ph : Nat) (c o : Rat) (h : NoTie (c + o)) :
                           roundHalfEven (c + o) - ((ph / 2 : Nat) : Int) + (ph : Int)) := by
   have hn : NoTie (c + halfPixel ph + o + -halfExt ph) := by
     rw [lo_arg_rat]; exact noTie_add_int _ _ h
-  have h2 := sliceBounds_consistent ph c o hn
+  have h2 := sliceBounds_consistent ph c o
   have h1 : (sliceBounds ph c o).1 = roundHalfEven (c + o) - ((ph / 2 : Nat) : Int) := by
     simp only [sliceBounds]
     rw [lo_arg_rat, roundHalfEven_add_int _ _ h]; omega
@@ -570,5 +570,136 @@ example : ((extractSlice exImg [(27/10, 3)] 3 2 none (-1)).toOption.bind fun p =
     (setPatches .coded p exImg [(27/10, 3)] (0, 0) 0 0).toOption) ≠ some exImg := by decide +kernel
 example : ((extractSlice exImg [(27/10, 3)] 3 2 none (-1)).toOption.bind fun p =>
     (setPatches .repaired p exImg [(27/10, 3)] (0, 0) 0 0).toOption) = some exImg := by decide +kernel
+
+/-! ### the round trip on a damaged image (a `set_patches` that writes nothing does not satisfy it) -/
+
+/-- pixel `(r, q)` lies in the window with low corner `w` -/
+def inWin (ph pw : Nat) (w : Int × Int) (r q : Nat) : Bool :=
+  decide (w.1 ≤ (r : Int)) && decide ((r : Int) < w.1 + ph) && decide (w.2 ≤ (q : Int)) && decide ((q : Int) < w.2 + pw)
+
+/-- the loop of `set_patches` started on ANY image `cur` of the right shape (e.g. one whose windows were damaged):
+when every patch holds the pixels of `pix` at the window it is written to, the result is `pix` on the union of the
+written windows and `cur` everywhere else -/
+theorem setLoop_restores {α : Type} (v : Variant) (pix patches : NDArr α) (C H W n k ph pw : Nat)
+    (hshape : pix.shape = [C, H, W]) (hwf : pix.WF)
+    (hps : patches.shape = [n, k, C, ph, pw]) (oi : Nat) (hoi : oi < k) (centres : List Pt) (o : Int × Int) (cval : α)
+    (hpatch : ∀ i ch r q, i < centres.length → ch < C → r < ph → q < pw →
+      patches.get? [i, oi, ch, r, q] = some (pixAt pix ch ((writeLo v ph pw (getPt centres i) o).1 + r)
+        ((writeLo v ph pw (getPt centres i) o).2 + q) cval))
+    (hint : ∀ i, i < centres.length → Inside H W ph pw (writeLo v ph pw (getPt centres i) o)) :
+    ∀ (l : List (Nat × Pt)) (cur : NDArr α),
+      (∀ x ∈ l, x.1 < centres.length ∧ x.2 = getPt centres x.1) →
+      cur.shape = [C, H, W] → cur.WF →
+      ∃ out, setLoop v patches o oi cval l cur = .ok out ∧ out.shape = [C, H, W] ∧ out.WF ∧
+        ∀ c r q, c < C → r < H → q < W →
+          out.get? [c, r, q] =
+            if l.any (fun x => inWin ph pw (writeLo v ph pw x.2 o) r q) then pix.get? [c, r, q] else cur.get? [c, r, q] := by
+  intro l
+  induction l with
+  | nil => intro cur _ hc hw; exact ⟨cur, rfl, hc, hw, fun c r q _ _ _ => by simp⟩
+  | cons x rest ih =>
+    intro cur hl hc hcw
+    obtain ⟨i, ctr⟩ := x
+    obtain ⟨hi, hctr⟩ := hl (i, ctr) (by simp)
+    simp only at hi hctr
+    subst hctr
+    obtain ⟨h0, h1, h2, h3⟩ := hint i hi
+    obtain ⟨nxt, e1, e2, e3⟩ := setOne_window v patches cur C H W n k ph pw hc hps i oi hoi (getPt centres i) o cval
+      (writeLo v ph pw (getPt centres i) o).1 (writeLo v ph pw (getPt centres i) o).2 rfl rfl h0 h1 h2 h3
+    have hnw : nxt.WF := by
+      unfold setOne at e1
+      simp only [hps, hc] at e1
+      split at e1
+      · cases e1
+      · try dsimp only at e1
+        split at e1
+        · injection e1 with e1; subst e1; exact ofFn_WF _ _
+        · cases e1
+    obtain ⟨out, g1, g2, g3, g4⟩ := ih nxt (fun y hy => hl y (by simp [hy])) e2 hnw
+    refine ⟨out, by simp only [setLoop, e1, g1], g2, g3, ?_⟩
+    intro c r q hcC hr hq
+    rw [g4 c r q hcC hr hq, e3 c r q hcC hr hq]
+    simp only [List.any_cons]
+    by_cases hrest : (rest.any fun x => inWin ph pw (writeLo v ph pw x.2 o) r q) = true
+    · simp [hrest]
+    · simp only [Bool.not_eq_true] at hrest
+      simp only [hrest, Bool.or_false, Bool.false_eq_true, if_false]
+      by_cases hw : (writeLo v ph pw (getPt centres i) o).1 ≤ (r : Int) ∧ (r : Int) < (writeLo v ph pw (getPt centres i) o).1 + ph ∧ (writeLo v ph pw (getPt centres i) o).2 ≤ (q : Int) ∧ (q : Int) < (writeLo v ph pw (getPt centres i) o).2 + pw
+      · have hin : inWin ph pw (writeLo v ph pw (getPt centres i) o) r q = true := by simp [inWin, hw.1, hw.2.1, hw.2.2.1, hw.2.2.2]
+        rw [if_pos hw, hin, if_pos rfl]
+        have hp := hpatch i c ((r : Int) - (writeLo v ph pw (getPt centres i) o).1).toNat ((q : Int) - (writeLo v ph pw (getPt centres i) o).2).toNat hi hcC (by omega) (by omega)
+        have x1 : (writeLo v ph pw (getPt centres i) o).1 + ((((r : Int) - (writeLo v ph pw (getPt centres i) o).1).toNat : Nat) : Int) = (r : Int) := by omega
+        have x2 : (writeLo v ph pw (getPt centres i) o).2 + ((((q : Int) - (writeLo v ph pw (getPt centres i) o).2).toNat : Nat) : Int) = (q : Int) := by omega
+        rw [x1, x2] at hp
+        have hpin := pixAt_inside pix C H W hshape hwf c hcC (r : Int) (q : Int) cval (by omega)
+        simp only [Int.toNat_natCast] at hpin
+        simp only [NDArr.getD, hp, Option.getD_some, hpin]
+      · have hin : inWin ph pw (writeLo v ph pw (getPt centres i) o) r q = false := by
+          cases h : inWin ph pw (writeLo v ph pw (getPt centres i) o) r q
+          · rfl
+          · simp only [inWin, Bool.and_eq_true, decide_eq_true_eq] at h; exact absurd ⟨h.1.1.1, h.1.1.2, h.1.2, h.2⟩ hw
+        rw [if_neg hw, hin]
+        obtain ⟨x, hx⟩ := get?_some_of_WF cur hcw [c, r, q] (by simp [hc, inRange]; omega)
+        simp only [NDArr.getD, hx, Option.getD_some, Bool.false_eq_true, if_false]
+
+/-- PROPERTY (round trip, the clause of the property text, on a DAMAGED image): patches extracted (slicing path) at
+integer centres whose windows lie inside the image and written by `set_patches` - same centres, same offset - into
+any image `cur` of the same shape (for instance `pix` with those windows overwritten) give an image that equals `pix`
+on every written window and `cur` everywhere else.  A `set_patches` that wrote nothing, or elsewhere, would not
+satisfy this. -/
+theorem set_extract_restores_damaged {α : Type} (v : Variant) (pix cur : NDArr α) (C H W : Nat)
+    (hshape : pix.shape = [C, H, W]) (hwf : pix.WF) (hcs : cur.shape = [C, H, W]) (hcw : cur.WF)
+    (cz : List (Int × Int)) (ph pw : Nat) (oz : List (Int × Int)) (oi : Nat) (hoi : oi < oz.length)
+    (cval : α) (hint : ∀ c ∈ cz, Interior H W ph pw c (oz.getD oi (0, 0))) :
+    ∃ patches, extractSlice pix (cz.map toPt) ph pw (some (oz.map toPt)) cval = .ok patches ∧
+      ∃ out, setPatches v patches cur (cz.map toPt) (oz.getD oi (0, 0)) oi cval = .ok out ∧
+        out.shape = [C, H, W] ∧
+        ∀ c r q, c < C → r < H → q < W →
+          out.get? [c, r, q] =
+            if cz.any (fun z => inWin ph pw (winLo ph pw z (oz.getD oi (0, 0))) r q) then pix.get? [c, r, q]
+            else cur.get? [c, r, q] := by
+  have hnt : NoTies (cz.map toPt) oz := by
+    intro i j _ _
+    rw [getPt_toPt_centres]
+    simp only [toPt, intCast_add_intCast]
+    exact ⟨noTie_intCast _, noTie_intCast _⟩
+  obtain ⟨patches, hp1, hp2, hp3⟩ := extractSlice_readLo pix C H W hshape (cz.map toPt) ph pw oz cval hnt
+  have hag : ∀ i, i < (cz.map toPt).length →
+      writeLo v ph pw (getPt (cz.map toPt) i) (oz.getD oi (0, 0)) = winLo ph pw (cz.getD i (0, 0)) (oz.getD oi (0, 0)) := by
+    intro i _
+    rw [getPt_toPt_centres]
+    simp only [writeLo, toPt, intCast_add_intCast, placeZ_intCast, winLo]
+  have hrl : ∀ i, readLo ph pw (getPt (cz.map toPt) i) (oz.getD oi (0, 0)) = winLo ph pw (cz.getD i (0, 0)) (oz.getD oi (0, 0)) := by
+    intro i; rw [getPt_toPt_centres, readLo_int]
+  refine ⟨patches, hp1, ?_⟩
+  simp only [setPatches, hp2, hcs]
+  obtain ⟨out, h1, h2, _, h4⟩ := setLoop_restores v pix patches C H W (cz.map toPt).length oz.length ph pw hshape hwf hp2
+    oi hoi (cz.map toPt) (oz.getD oi (0, 0)) cval
+    (fun i ch r q hi hch hr hq => by
+      rw [hag i hi, ← hrl i]; exact hp3 i oi ch r q (by simp only [List.length_map] at hi; simp [inRange]; omega))
+    (fun i hi => by
+      rw [hag i hi]
+      simp only [List.length_map] at hi
+      have hmem : cz.getD i (0, 0) ∈ cz := by
+        rw [List.getD_eq_getElem?_getD, List.getElem?_eq_getElem hi]; simp
+      exact hint _ hmem)
+    ((List.range (cz.map toPt).length).zip (cz.map toPt)) cur (zip_range_getPt (cz.map toPt)) hcs hcw
+  refine ⟨out, h1, h2, ?_⟩
+  intro c r q hc hr hq
+  rw [h4 c r q hc hr hq]
+  have hany : (((List.range (cz.map toPt).length).zip (cz.map toPt)).any
+        fun x => inWin ph pw (writeLo v ph pw x.2 (oz.getD oi (0, 0))) r q) =
+      cz.any (fun z => inWin ph pw (winLo ph pw z (oz.getD oi (0, 0))) r q) := by
+    have hz : ((List.range (cz.map toPt).length).zip (cz.map toPt)).map Prod.snd = cz.map toPt := by
+      rw [List.map_snd_zip]; simp
+    rw [show (((List.range (cz.map toPt).length).zip (cz.map toPt)).any
+          fun x => inWin ph pw (writeLo v ph pw x.2 (oz.getD oi (0, 0))) r q) =
+        ((((List.range (cz.map toPt).length).zip (cz.map toPt)).map Prod.snd).any
+          fun p => inWin ph pw (writeLo v ph pw p (oz.getD oi (0, 0))) r q) by rw [List.any_map]; rfl]
+    rw [hz, List.any_map]
+    congr 1
+    funext z
+    simp only [Function.comp, writeLo, toPt, intCast_add_intCast, placeZ_intCast, winLo]
+  rw [hany]
 
 end MenpoModel.C13
